@@ -167,11 +167,13 @@ add("crc_native", "adsb_deku", L + "obl_crc_native", props=["C03-native"], stubs
 
 V = "crate::verif_obl_vel::"
 for _st in range(8):
-    add("vel_calc_st%d" % _st, "adsb_deku", V + "obl_velocity_calc", args="%d" % _st, props=["C07", "C01", "C20"], features=("std", "alloc") if _st in (1, 2) else ("std",),
-        stubs=["libm::atan2 => crate::verif_obl_vel::atan2_stub", "libm::hypot => crate::verif_obl_vel::hypot_stub"],
-        tier="quick" if _st in (0, 1, 2, 3) else "thorough", timeout=1200,
-        domain="subtype %d x all 2^22 velocity words x all 2^10 vertical-rate codes; atan2/hypot results arbitrary within the stated envelope" % _st,
-        functions=["adsb::AirborneVelocity::calculate", "Sign::value"])
+    for _part in ((0, 1) if _st in (1, 2) else (0,)):
+        add("vel_calc_st%d_p%d" % (_st, _part), "adsb_deku", V + "obl_velocity_calc", args="%d, %d" % (_st, _part), props=["C07", "C01"],
+            stubs=["libm::atan2 => crate::verif_obl_vel::atan2_stub", "libm::hypot => crate::verif_obl_vel::hypot_stub"],
+            tier="quick" if _st in (0, 1, 2, 3) else "thorough", timeout=800,
+            domain=("subtype %d x all 2^22 velocity words x all 2^10 vertical-rate codes (ghost atan2 / hypot results fixed)" % _st) if _part == 0 else
+                   ("subtype %d, one velocity word, atan2 / hypot results arbitrary within the stated envelope" % _st),
+            functions=["adsb::AirborneVelocity::calculate", "Sign::value"])
 
 P = "crate::cpr::verif_cpr::"
 PM_STUB = "crate::cpr::positive_mod => crate::cpr::verif_cpr::positive_mod_contract"
